@@ -55,13 +55,26 @@ struct fixed_order {
 
 // variant: 0 default Cuthill-McKee, 1 reverse Cuthill-McKee, 2 identity (fixed_order), 3 tape permutation (fixed_order)
 static const char *variant_name(int v) { return v == 0 ? "cm" : v == 1 ? "rcm" : v == 2 ? "identity" : "given-perm"; }
+// Calls the library ordering on a vector with n+slack entries pre-filled with -1: a defective ordering that emits more than n
+// nodes is then *reported* (tail touched / first n entries not a permutation) instead of corrupting the heap of the harness.
+template <bool reverse, class I>
+static std::vector<I> call_cm(const ab::crs<double> &S, int n, std::string &why) {
+    const size_t slack = static_cast<size_t>(n) + 8;
+    std::vector<I> perm(static_cast<size_t>(n) + slack, static_cast<I>(-1));
+    amgcl::reorder::cuthill_mckee<reverse>::get(S, perm);
+    why.clear();
+    for (size_t k = n; k < perm.size(); ++k) if (perm[k] != static_cast<I>(-1)) { why = "wrote perm[" + std::to_string(k) + "] = " + std::to_string(static_cast<long>(perm[k])) + " past the end (n=" + std::to_string(n) + ")"; break; }
+    perm.resize(n);
+    if (why.empty()) { std::vector<int> p(perm.begin(), perm.end()); is_permutation_of_n(p, n, why); }
+    return perm;
+}
 static std::vector<int> ordering_of(int variant, const Pat &P, Tape *t) {
     std::vector<int> perm(P.n, -1);
     if (variant <= 1) {
         auto S = pattern_crs(P);
-        if (variant == 0) amgcl::reorder::cuthill_mckee<false>::get(*S, perm); else amgcl::reorder::cuthill_mckee<true>::get(*S, perm);
         std::string why;
-        VF_REQUIRE(is_permutation_of_n(perm, P.n, why), "cuthill_mckee<" << (variant ? "true" : "false") << "> did not return a permutation: " << why << " pattern=" << dump_pat(P));
+        perm = variant == 0 ? call_cm<false, int>(*S, P.n, why) : call_cm<true, int>(*S, P.n, why);
+        VF_REQUIRE(why.empty(), "cuthill_mckee<" << (variant ? "true" : "false") << "> did not return a permutation of 0.." << P.n - 1 << ": " << why << " pattern=" << dump_pat(P));
     } else if (variant == 2) { for (int i = 0; i < P.n; ++i) perm[i] = i; }
     else perm = gen_perm(*t, P.n);
     return perm;
@@ -424,16 +437,122 @@ void prop_lu_float(Tape &t, Ctx &c) {
     }
 }
 
+// ------------------------------------------------------------------ props: large-diameter class (hundreds of breadth-first level sets)
+// chains, narrow bands, thin strips, caterpillars and unions of > 255 tiny components with n in [250, 1500]: the level-set
+// bookkeeping of Cuthill-McKee and the skyline profile are exercised far beyond the sizes of the other generators.  Sparse
+// storage throughout; strictly diagonally dominant values.  Oracle: the ordering is a bijection (both variants), the solver does
+// not throw, residual ||b-Ax||_inf <= min(8 N^2, 16 (W+1)^3) u ||A|| ||x||  (W = half-width of the skyline in the solver's
+// ordering: every inner product has <= W terms, backward error 3 gamma_{W+1} |L||U|, |L||U|_ij <= 2 W max|a| on <= 2W+1 columns
+// per row for matrices dominant by rows or columns), and for row-dominant values the forward error through ||A^-1|| <= 1/gap.
+static void check_cm(const Pat &P, const std::string &what);
+struct Lcg { uint64_t s; explicit Lcg(uint64_t seed) : s(seed * 2862933555777941757ULL + 3037000493ULL) {} uint32_t next() { s = s * 6364136223846793005ULL + 1442695040888963407ULL; return static_cast<uint32_t>(s >> 32); } double uni() { return next() / 4294967296.0; } };
+
+template <class V>
+void prop_lu_long(Tape &t, Ctx &c) {
+    static_assert(LT<V>::B == 1, "scalar values");
+    const bool cx = LT<V>::cx;
+    int fam = static_cast<int>(t.u(0, 4));       // 0 chain, 1 band, 2 strip, 3 many components, 4 caterpillar
+    int n0 = static_cast<int>(t.u(250, 1500));
+    int w = static_cast<int>(t.u(2, 3));          // band width / strip width
+    int relabel = static_cast<int>(t.u(0, 2));    // 0 natural numbering, 1 reversed, 2 random relabelling
+    int vsel = static_cast<int>(t.u(0, 7));
+    int variant = vsel <= 2 ? 0 : vsel <= 5 ? 1 : vsel == 6 ? 2 : 3;
+    int fam_v = static_cast<int>(t.u(1, 2));      // 1 row strictly dominant, 2 column strictly dominant
+    int dropq = t.chance(1, 3) ? static_cast<int>(t.u(1, 2)) : 0; // structural non-symmetry: each direction dropped with probability dropq/8
+    uint64_t stream = static_cast<uint64_t>(t.u(0, 0xffffffffLL));
+    Lcg rng(stream);         // values, relabelling and drops: a stream fixed by this tape word
+    // ---- graph
+    std::vector<std::pair<int, int>> edges; int n = n0; std::string fname;
+    switch (fam) {
+    case 0: fname = "chain"; for (int i = 0; i + 1 < n; ++i) edges.push_back({i, i + 1}); break;
+    case 1: fname = "band" + std::to_string(w); for (int i = 0; i < n; ++i) for (int d = 1; d <= w && i + d < n; ++d) edges.push_back({i, i + d}); break;
+    case 2: { fname = "strip" + std::to_string(w); int k = std::max(2, n0 / w); n = k * w; for (int i = 0; i < k; ++i) for (int j = 0; j < w; ++j) { if (j + 1 < w) edges.push_back({i * w + j, i * w + j + 1}); if (i + 1 < k) edges.push_back({i * w + j, (i + 1) * w + j}); } break; }
+    case 3: { fname = "components"; int i = 0; while (i < n) { int sz = std::min(n - i, 1 + static_cast<int>(rng.next() % 4)); bool clique = rng.next() & 1; for (int a = 0; a < sz; ++a) for (int b = a + 1; b < sz; ++b) if (clique || b == a + 1) edges.push_back({i + a, i + b}); i += sz; } break; }
+    default: { fname = "caterpillar"; int spine = std::max(2, (2 * n) / 3); for (int i = 0; i + 1 < spine; ++i) edges.push_back({i, i + 1}); for (int i = spine; i < n; ++i) edges.push_back({static_cast<int>(rng.next() % spine), i}); break; }
+    }
+    std::vector<int> lab(n); for (int i = 0; i < n; ++i) lab[i] = relabel == 1 ? n - 1 - i : i;
+    if (relabel == 2) for (int i = n; i > 1; --i) std::swap(lab[i - 1], lab[rng.next() % i]);
+    std::vector<std::map<int, cplx>> rows(n);
+    bool nonsym = false;
+    auto val = [&]() { double m = 0.05 + 2.0 * rng.uni(); double re = (rng.next() & 1) ? m : -m, im = cx ? (2.0 * rng.uni() - 1.0) : 0.0; return cplx(re, im); };
+    for (auto &e : edges) {
+        int a = lab[e.first], b = lab[e.second];
+        bool d1 = dropq && static_cast<int>(rng.next() % 8) < dropq, d2 = dropq && static_cast<int>(rng.next() % 8) < dropq;
+        if (!d1) rows[a][b] = val();
+        if (!d2) rows[b][a] = val();
+        if (d1 != d2) nonsym = true;
+    }
+    // strictly dominant diagonal (by rows or by columns)
+    std::vector<long double> osum(n, 0.0L);
+    for (int i = 0; i < n; ++i) for (auto &kv : rows[i]) osum[fam_v == 1 ? i : kv.first] += std::abs(L(kv.second));
+    for (int i = 0; i < n; ++i) {
+        double d = static_cast<double>(osum[i]) * (1.0 + 0.01 + rng.uni()) + 0.01 + rng.uni();
+        cplx ph = cx ? std::polar(1.0, 6.283185307179586 * rng.uni()) : ((rng.next() & 1) ? cplx(-1, 0) : cplx(1, 0));
+        rows[i][i] = d * ph;
+    }
+    Pat P; P.n = n; P.rows.assign(n, {});
+    bool shuffle = rng.next() & 1;
+    for (int i = 0; i < n; ++i) { for (auto &kv : rows[i]) P.rows[i].push_back(Ent{kv.first, false}); if (shuffle) for (size_t a = P.rows[i].size(); a > 1; --a) std::swap(P.rows[i][a - 1], P.rows[i][rng.next() % a]); }
+    // number of breadth-first level sets from node 0 with restart at the lowest unvisited node (what the ordering has to count)
+    int levels = 0;
+    { std::vector<char> seen(n, 0); std::vector<int> cur; int nextfree = 0, done = 0;
+      while (done < n) {
+          if (cur.empty()) { while (seen[nextfree]) ++nextfree; cur.push_back(nextfree); seen[nextfree] = 1; ++done; ++levels; }
+          std::vector<int> nxt; for (int u : cur) for (auto &kv : rows[u]) if (!seen[kv.first]) { seen[kv.first] = 1; ++done; nxt.push_back(kv.first); }
+          if (!nxt.empty()) ++levels; cur.swap(nxt);
+      } }
+    c.desc << "skyline_lu<" << LT<V>::name() << "> long " << fname << " n=" << n << " nnz=" << P.nnz() << " relabel=" << relabel << " order=" << variant_name(variant) << " values=" << (fam_v == 1 ? "row-dd" : "col-dd")
+           << " dropq=" << dropq << " level_sets=" << levels << " stream=" << stream;
+    c.label(std::string("val:") + LT<V>::name()); c.label("long:" + fname); c.label(std::string("order:") + variant_name(variant)); c.label(fam_v == 1 ? "values:row-dd" : "values:col-dd");
+    c.label(levels >= 256 ? "level-sets>=256" : "level-sets<256"); if (levels >= 512) c.label("level-sets>=512"); if (nonsym) c.label("structurally-nonsymmetric");
+    c.label(relabel == 0 ? "numbering:natural" : relabel == 1 ? "numbering:reversed" : "numbering:random");
+    c.nontrivial = levels >= 256;
+    // ---- the ordering is a bijection (both variants, whatever ordering the solve below uses)
+    check_cm(P, "large-diameter " + fname + " n=" + std::to_string(n));
+    std::vector<int> perm;
+    if (variant == 3) { perm.resize(n); for (int i = 0; i < n; ++i) perm[i] = i; for (int i = n; i > 1; --i) std::swap(perm[i - 1], perm[rng.next() % i]); } // from the stream: keeps the tape short
+    else perm = ordering_of(variant, P, &t);
+    // ---- library matrix, right-hand side
+    std::vector<ptrdiff_t> ptr(1, 0), col; std::vector<V> vals;
+    for (int i = 0; i < n; ++i) { for (auto &e : P.rows[i]) { cplx v = rows[i][e.col]; col.push_back(e.col); vals.push_back(LT<V>::from(&v)); } ptr.push_back(static_cast<ptrdiff_t>(col.size())); }
+    ab::crs<V> A(static_cast<size_t>(n), static_cast<size_t>(n), ptr, col, vals);
+    typedef typename LT<V>::rhs R;
+    std::vector<cplx> xt(n), bf(n);
+    for (int i = 0; i < n; ++i) xt[i] = cplx(2.0 * rng.uni() - 1.0, cx ? 2.0 * rng.uni() - 1.0 : 0.0);
+    for (int i = 0; i < n; ++i) { lcplx s(0, 0); for (auto &kv : rows[i]) s += L(kv.second) * L(xt[kv.first]); bf[i] = cplx(static_cast<double>(s.real()), static_cast<double>(s.imag())); }
+    std::vector<R> b(n), x(n);
+    for (int i = 0; i < n; ++i) { b[i] = LT<V>::rfrom(&bf[i]); cplx nanv(std::numeric_limits<double>::quiet_NaN(), 0); x[i] = LT<V>::rfrom(&nanv); }
+    std::string err;
+    bool ok = solve_variant<V>(variant, perm, A, b, x, err);
+    VF_REQUIRE(ok, "skyline_lu threw \"" << err << "\" on a strictly diagonally dominant " << fname << " matrix with n=" << n);
+    // ---- skyline half-width in the solver's ordering
+    std::vector<int> inv(n); for (int i = 0; i < n; ++i) inv[perm[i]] = i;
+    int W = 0; for (int i = 0; i < n; ++i) for (auto &kv : rows[i]) W = std::max(W, std::abs(inv[i] - inv[kv.first]));
+    c.label(W <= 4 ? "skyline-halfwidth<=4" : W <= 16 ? "skyline-halfwidth<=16" : "skyline-halfwidth>16");
+    long double normA = 0, normx = 0, res = 0, gap = 1e300L;
+    for (int i = 0; i < n; ++i) { long double sr = 0; for (auto &kv : rows[i]) sr += std::abs(L(kv.second)); normA = std::max(normA, sr); if (fam_v == 1) gap = std::min(gap, 2 * std::abs(L(rows[i][i])) - sr); }
+    std::vector<lcplx> xs(n);
+    for (int i = 0; i < n; ++i) { cplx g = LT<V>::rget(x[i], 0); VF_REQUIRE(std::isfinite(g.real()) && std::isfinite(g.imag()), "skyline_lu: non-finite solution component " << i << " (" << fname << ", n=" << n << ")"); xs[i] = L(g); normx = std::max(normx, std::abs(xs[i])); }
+    for (int i = 0; i < n; ++i) { lcplx s = L(bf[i]); for (auto &kv : rows[i]) s -= L(kv.second) * xs[kv.first]; res = std::max(res, std::abs(s)); }
+    long double cN = 8.0L * n * n, cW = 16.0L * (W + 1) * (W + 1) * (W + 1);
+    long double tol = (cx ? 4.0L : 1.0L) * std::min(cN, cW) * U53 * normA * normx * C16_TOLSCALE;
+    VF_REQUIRE(res <= tol, "skyline_lu residual ||b-Ax||_inf = " << static_cast<double>(res) << " > " << static_cast<double>(tol) << " = min(8 N^2, 16 (W+1)^3) u ||A|| ||x|| (N=" << n << ", W=" << W << ", ||A||=" << static_cast<double>(normA) << ", ||x||=" << static_cast<double>(normx) << ", " << fname << ")");
+    if (fam_v == 1) {
+        long double ferr = 0; for (int i = 0; i < n; ++i) ferr = std::max(ferr, std::abs(xs[i] - L(xt[i])));
+        long double ftol = (tol + 2 * (2 * W + 2) * U53 * normA) / gap; // rounding of bf: at most 2W+1 terms per row
+        VF_REQUIRE(ferr <= ftol, "skyline_lu forward error " << static_cast<double>(ferr) << " > " << static_cast<double>(ftol) << " (row diagonally dominant, ||A^-1|| <= 1/" << static_cast<double>(gap) << ", " << fname << ", n=" << n << ")");
+    }
+}
+
 // ------------------------------------------------------------------ Cuthill-McKee
 static void check_cm(const Pat &P, const std::string &what) {
     auto S = pattern_crs(P);
     for (int rev = 0; rev < 2; ++rev) {
-        std::vector<int> perm(P.n, -1);
-        if (rev) amgcl::reorder::cuthill_mckee<true>::get(*S, perm); else amgcl::reorder::cuthill_mckee<false>::get(*S, perm);
-        std::string why;
-        VF_REQUIRE(is_permutation_of_n(perm, P.n, why), "cuthill_mckee<" << (rev ? "true" : "false") << ">::get is not a permutation of 0.." << P.n - 1 << ": " << why << " (" << what << ")");
-        std::vector<ptrdiff_t> perm2(P.n, -1); // other index type of the output vector
-        if (rev) amgcl::reorder::cuthill_mckee<true>::get(*S, perm2); else amgcl::reorder::cuthill_mckee<false>::get(*S, perm2);
+        std::string why, why2;
+        std::vector<int> perm = rev ? call_cm<true, int>(*S, P.n, why) : call_cm<false, int>(*S, P.n, why);
+        VF_REQUIRE(why.empty(), "cuthill_mckee<" << (rev ? "true" : "false") << ">::get is not a permutation of 0.." << P.n - 1 << ": " << why << " (" << what << ")");
+        std::vector<ptrdiff_t> perm2 = rev ? call_cm<true, ptrdiff_t>(*S, P.n, why2) : call_cm<false, ptrdiff_t>(*S, P.n, why2); // other index type of the output vector
+        VF_REQUIRE(why2.empty(), "cuthill_mckee<" << (rev ? "true" : "false") << ">::get (ptrdiff_t output) is not a permutation: " << why2 << " (" << what << ")");
         for (int i = 0; i < P.n; ++i) VF_REQUIRE(perm2[i] == perm[i], "cuthill_mckee: result depends on the index type of the output vector");
     }
 }
@@ -578,6 +697,8 @@ static std::vector<Prop> props() {
         Prop("lu_float_complex", prop_lu_float<cplx>, 2400, 24000, 100, 100, {1}, 1, 2),
         Prop("lu_float_blk2", prop_lu_float<blk2>, 1800, 18000, 100, 150, {1}, 1, 2),
         Prop("lu_float_blk3", prop_lu_float<blk3>, 1000, 10000, 100, 250, {1}, 1, 2),
+        Prop("lu_long_double", prop_lu_long<double>, 250, 2500, 100, 2, {1, 4}, 2, 4),
+        Prop("lu_long_complex", prop_lu_long<cplx>, 120, 1200, 100, 2, {1}, 1, 2),
         Prop("cm", prop_cm, 3000, 30000, 100, 20, {1, 4}, 1, 2),
         Prop("inverse_double", prop_inverse_dyn<double>, 3000, 30000, 100, 2, {1}, 1, 2),
         Prop("inverse_complex", prop_inverse_dyn<cplx>, 2000, 20000, 100, 3, {1}, 1, 2),
